@@ -73,6 +73,35 @@ class MultiPeriodStreamData(TypedDict):
     periods: list[PeriodJsonData]
 
 
+def payload_errors(data) -> list[str]:
+    """
+    Checks the shape of the JSON body that describes a multi-period stream
+    """
+    if not isinstance(data, dict):
+        return ['a JSON object is required']
+    errors: list[str] = []
+    for name in ['name', 'title']:
+        if not isinstance(data.get(name), str):
+            errors.append(f'{name}: a string is required')
+    periods = data.get('periods')
+    if not isinstance(periods, list):
+        errors.append('periods: a list is required')
+        return errors
+    for idx, period in enumerate(periods):
+        if not isinstance(period, dict):
+            errors.append(f'periods[{idx}]: an object is required')
+            continue
+        for name, kind in [('pid', str), ('stream', int), ('start', str),
+                           ('duration', str), ('ordering', int), ('tracks', list)]:
+            value = period.get(name)
+            if not isinstance(value, kind) or isinstance(value, bool):
+                errors.append(f'periods[{idx}].{name}: {kind.__name__} is required')
+        pk = period.get('pk')
+        if pk is not None and (not isinstance(pk, int) or isinstance(pk, bool)):
+            errors.append(f'periods[{idx}].pk: int or null is required')
+    return errors
+
+
 def process_period(mp_stream: models.MultiPeriodStream,
                    data: PeriodJsonData) -> str | None:
     """
@@ -80,11 +109,23 @@ def process_period(mp_stream: models.MultiPeriodStream,
     """
     period: models.Period | None = None
     new_period: bool = False
+    try:
+        start = datetime.timedelta()
+        if data['start'] not in {"", "PT0S"}:
+            start = from_isodatetime(data['start'])
+        duration = None
+        if data['duration'] not in {"", "PT0S"}:
+            duration = from_isodatetime(data['duration'])
+    except ValueError as err:
+        return f"Invalid time in period {data['pid']}: {err}"
+    if not isinstance(start, datetime.timedelta) or (
+            duration is not None and not isinstance(duration, datetime.timedelta)):
+        return f"start and duration of period {data['pid']} must be durations"
 
     defaults = OptionsRepository.get_default_options()
     options = OptionsRepository.convert_cgi_options(
         {"mode": "vod"}, defaults=defaults)
-    if data['pk'] is not None:
+    if data.get('pk') is not None:
         period = models.Period.get(pk=data['pk'])
     elif mp_stream.pk:
         period = models.Period.get(pid=data['pid'], parent=mp_stream)
@@ -108,17 +149,14 @@ def process_period(mp_stream: models.MultiPeriodStream,
     period.stream_pk = stream.pk
     period.ordering = data['ordering']
     period.pid = data['pid']
-    if data['start'] in {"", "PT0S"}:
-        period.start = datetime.timedelta()
-    else:
-        period.start = from_isodatetime(data['start'])
+    period.start = start
     mod_seg, start_tc, origin = mf.representation.get_segment_index(
         int(period.start.total_seconds() * mf.representation.timescale))
     period.start = timecode_to_timedelta(start_tc, mf.representation.timescale)
-    if data['duration'] in {"", "PT0S"}:
+    if duration is None:
         period.duration = stream.duration()
     else:
-        period.duration = from_isodatetime(data['duration'])
+        period.duration = duration
     if new_period:
         models.db.session.add(period)
     unused_tracks: set[int] = set()
@@ -230,7 +268,12 @@ class AddStream(HTMLHandlerBase):
             return jsonify_no_content(400)
         csrf_key = self.generate_csrf_cookie()
         csrf_token = self.generate_csrf_token('streams', csrf_key)
-        errors: list[str] = []
+        errors: list[str] = payload_errors(data)
+        if errors:
+            return jsonify({
+                "errors": errors,
+                "csrf_token": csrf_token,
+            })
         for source, msg in models.MultiPeriodStream.validate_values(**data).items():
             errors.append(f"{source}: {msg}")
         if errors:
@@ -275,7 +318,10 @@ class ValidateStream(RequestHandlerBase):
     ]
 
     def post(self) -> flask.Response:
-        errors = models.MultiPeriodStream.validate_values(**flask.request.json)
+        data = flask.request.json
+        if not isinstance(data, dict):
+            return jsonify_no_content(400)
+        errors = models.MultiPeriodStream.validate_values(**data)
         return jsonify({
             'errors': errors,
         })
@@ -323,6 +369,12 @@ class EditStream(HTMLHandlerBase):
             return jsonify_no_content(400)
         csrf_key = self.generate_csrf_cookie()
         csrf_token = self.generate_csrf_token('streams', csrf_key)
+        shape_errors: list[str] = payload_errors(data)
+        if shape_errors:
+            return jsonify({
+                'errors': shape_errors,
+                'csrf_token': csrf_token,
+            })
         errors = models.MultiPeriodStream.validate_values(**data)
         if errors:
             return jsonify({
